@@ -566,6 +566,26 @@ def p_bc_trace(a):
     return res
 
 
+def p_ckk_nodes(a):
+    """complete KK (optimal) called with a bins-manager; the module attribute _possible_partition_difference_lower_bound is wrapped to
+    count the heaps popped from the search stack (every popped heap is bounded exactly once)"""
+    ckkm = mod("prtpy.partitioning.complete_karmarkar_karp_sy")
+    real = ckkm._possible_partition_difference_lower_bound
+    cnt = [0]
+
+    def rec(heap, numbins):
+        cnt[0] += 1
+        return real(heap, numbins)
+    items, valueof, decode = algo_items(a)
+    keep = a.get("keep", True)
+    ckkm._possible_partition_difference_lower_bound = rec
+    try:
+        b = PART_ALGOS["ckk"]()(binner_of(keep, valueof), a["k"], items)
+    finally:
+        ckkm._possible_partition_difference_lower_bound = real
+    return {"num": cnt[0], "bins": enc_binsarray(b, keep, decode)}
+
+
 def p_binner_ops(a):
     """executes a sequence of bins-manager operations on the real managers; after every
     operation reports what every handle ever created shows"""
@@ -642,7 +662,7 @@ def p_history(a):
 
 
 PORTS = {
-    "numitems": p_numitems, "ilp_full": p_ilp_full, "history": p_history, "bc_trace": p_bc_trace,
+    "numitems": p_numitems, "ilp_full": p_ilp_full, "history": p_history, "bc_trace": p_bc_trace, "ckk_nodes": p_ckk_nodes,
     "binner_ops": p_binner_ops,
     "partition": p_partition, "pack": p_pack, "cg_clock": p_cg_clock, "cbldm_clock": p_cbldm_clock,
     "cbldm_args": p_cbldm_args, "ckk_generator": p_ckk_generator, "algo_direct": p_algo_direct,
